@@ -101,7 +101,8 @@ def worker(shard, nshards, tier, seed):
             acc.outcome((kind, method, arg_class(args), out[0]))
             for tail in judge(kind, s, chain, method, args, out, cache[key]):
                 acc.violation(f"C10|{tail}", {"kind": kind, "chain": e1.chain_src(chain),
-                                              "method": method, "args": e1.arg_src(args)})
+                                              "method": method, "args": e1.arg_src(args),
+                                              "tier": tier})
 
         seen, ntr = e1.bfs(kind, tier, MAXLEN[tier], on_tr)
         acc.count("states", len(seen))
@@ -136,12 +137,24 @@ def run(tier, seed):
                       "Python arity errors, optional(...) and nan are outside the alphabet"]
 
 
+def _replay_inner(case):
+    """Re-runs the whole BFS of that type (deterministic order, < 1 s) and reports every signature:
+    a transition's outcome may depend on transitions executed earlier in the same process."""
+    sigs = set()
+    kind = case["kind"]
+    cache = {}
+
+    def on_tr(s, chain, method, args, out):
+        key = id(s)
+        if key not in cache:
+            cache[key] = (fp(s), safe_repr(s))
+        for tail in judge(kind, s, chain, method, args, out, cache[key]):
+            sigs.add(f"C10|{tail}")
+
+    e1.bfs(kind, case.get("tier", "quick"), MAXLEN[case.get("tier", "quick")], on_tr)
+    return sorted(sigs)
+
+
 def replay(case):
-    chain = e1.chain_unsrc(case["chain"])
-    s, bad = e1.run_chain(case["kind"], chain)
-    if s is None:
-        return f"chain no longer builds: {bad}"
-    before = (fp(s), safe_repr(s))
-    args = e1.arg_unsrc(case["args"])
-    out = e1.step(s, case["method"], args)
-    return [f"C10|{t}" for t in judge(case["kind"], s, chain, case["method"], args, out, before)]
+    from ..runner import replay_in_fresh_interpreter
+    return replay_in_fresh_interpreter("mc.checks.c10", case)
